@@ -3,13 +3,15 @@ a rejected password yields the incorrect-password error with nothing further wri
 import looplib as L
 from vlib import Failure, hexs
 
-PASSWORDS = [b"secret", b"pass word", b"p \"q", b"", "pässwörd".encode(), b"a\tb", b"x" * 300]
+PASSWORDS = [b"secret", b"pass word", b"p \"q", b"", "pässwörd".encode(), b"a\tb", b"x" * 300, b" s3cret", b"s3cret ", b" ", b"  two  ", b"\ttab\t"]
 
 
 def wire_password(pw):
     """What the command API must write (quoting rules are C06's business; simple passwords only are compared exactly)."""
     if pw and all(33 <= c < 127 and c not in b"\"'\\" for c in pw):
         return b"password " + pw
+    if pw and all(32 <= c < 127 and c not in b"\"'\\" for c in pw):
+        return b'password "' + pw + b'"'          # blanks force the quoted form; they are part of the password, also at its ends
     return None
 
 
